@@ -60,7 +60,8 @@ type c06Chaos struct {
 	pingAck  chan [8]byte
 	wg       sync.WaitGroup
 	hdrOpen  uint32
-	pings    uint64 // PINGs sent so far (payload = the count)
+	pings     uint64 // PINGs sent so far (payload = the count)
+	pingAcked uint64 // highest payload acknowledged so far
 }
 
 // ping sends a PING (recorded; the acknowledgement shows up in the history as Y<payload>).
@@ -168,6 +169,9 @@ func (p *c06Chaos) reader() {
 					v = v<<8 | uint64(f.Data[i])
 				}
 				p.hist = append(p.hist, fmt.Sprintf("Y%d", v))
+				if v > p.pingAcked {
+					p.pingAcked = v
+				}
 				select {
 				case p.pingAck <- f.Data:
 				default:
@@ -563,15 +567,27 @@ func c06MonitorRun(cfg c06Cfg, seed int64, workers, perWorker int) (*c06MonitorR
 	p.stop = true
 	p.cond.Broadcast()
 	closed := p.closed
+	var barrier uint64
 	if !closed {
 		p.ping()
+		barrier = p.pings
 	}
 	p.mu.Unlock()
 	if !closed {
-		select {
-		case <-p.pingAck:
-		case <-time.After(5 * time.Second):
-			res.stalled = true
+		// the acknowledgement of THIS ping (the granter's earlier ones may still be coming in)
+		deadline := time.Now().Add(5 * time.Second)
+		for {
+			p.mu.Lock()
+			done := p.pingAcked >= barrier || p.closed
+			p.mu.Unlock()
+			if done {
+				break
+			}
+			if time.Now().After(deadline) {
+				res.stalled = true
+				break
+			}
+			time.Sleep(200 * time.Microsecond)
 		}
 	}
 	// a short grace period for a late RST_STREAM of a request that finished with an error
